@@ -17,9 +17,9 @@ Here is a semantic property that plasTeX is supposed to satisfy:
 Your task: produce {n} DIFFERENT, realistic changes (bugs a developer could plausibly introduce in a refactoring or "optimisation") to the plasTeX sources in {wt}/plasTeX that BREAK this property, while the package still imports and the existing test suite still passes. Prefer changes that need something specific to manifest -- a particular multi-step sequence of operations, an unusual but legal input, a particular nesting/order, or two cooperating sites that each look fine alone -- NOT ones that any ordinary use would expose at once. Each change should be small (1-15 lines).
 
 For each change k = 1..{n}:
- 1. Make the change in the worktree, then run the existing tests that matter from inside the worktree:  cd {wt} && /venv/bin/python -m pytest -q -p no:cacheprovider -x unittests -k "not benchmark" --timeout=900 2>&1 | tail -5   (the full suite has 360 passing tests and 58 that always fail offline because they need pdflatex etc.; a change is acceptable only if the set of PASSING tests is unchanged -- compare against a run without your change: the same 360 must pass).  Running with cwd={wt} makes `import plasTeX` use the worktree.
- 2. Write a demonstration program {out}/demo_k.py (plain Python, run as `cd {wt} && /venv/bin/python {out}/demo_k.py`) that exits 0 when the property holds for its input (i.e. on the unchanged code) and exits 1, printing what went wrong, with your change applied. The demo must exercise the public behaviour the property talks about.
+ 1. Make the change in the worktree, then run the existing tests that matter from inside the worktree:  cd {wt} && /venv/bin/python -m pytest -q -p no:cacheprovider unittests --timeout=900 2>&1 | tail -5   (the full suite has 360 passing tests and 58 that always fail offline because they need pdflatex etc.; a change is acceptable only if the set of PASSING tests is unchanged -- compare against a run without your change: the same 360 must pass).  Running with cwd={wt} makes `import plasTeX` use the worktree.
+ 2. Write a demonstration program {out}/demo_k.py (plain Python, run as `cd {wt} && /venv/bin/python {out}/demo_k.py`) that exits 0 when the property holds for its input (i.e. on the unchanged code) and exits 1, printing what went wrong, with your change applied. The demo must exercise the public behaviour the property talks about. IMPORTANT: start every demo with `import sys, os; sys.path.insert(0, os.getcwd())` so that `import plasTeX` picks up the worktree (a script's own directory, not the cwd, is on sys.path).
  3. Save the change as {out}/patch_k.diff  (cd {wt} && git diff > {out}/patch_k.diff), write {out}/meta_k.json with keys: property ("{pid}"), summary (one sentence), needs (what specific input/sequence is needed for the breakage to manifest), files (list).
  4. Revert the worktree (cd {wt} && git checkout -- .) and confirm demo_k.py exits 0 on the unchanged code, then apply the patch again (git apply) and confirm it exits 1, then revert again.
 
-Finish with the worktree clean (git status shows no changes). In your final answer list, per change, the summary, the 'needs', and the test results you observed (numbers of passed tests with and without the change, demo exit codes). Do not modify any test files. Do not make changes that merely raise exceptions everywhere or that break ordinary documents at once.''')
+Finish with the worktree clean (git status shows no changes). In your final answer list, per change, the summary, the 'needs', and the test results you observed (numbers of passed tests with and without the change, demo exit codes). Never use `git stash` (stashes are shared between worktrees and other people work in sibling worktrees); use only `git diff`, `git apply`, `git checkout -- .`. Lines of the form `if _verif.ENABLED: _verif.emit(...)` are inert instrumentation; leave them alone. Do not modify any test files. Do not make changes that merely raise exceptions everywhere or that break ordinary documents at once.''')
